@@ -94,6 +94,8 @@ HiOk == IF "reshi" \notin DOMAIN T THEN TRUE
 ResOk ==
   /\ T.out = "ok"
   /\ HiOk
+  /\ (IF "kindok" \in DOMAIN T THEN T.kindok = 1 ELSE TRUE)   \* container follows the input (C07)
+  /\ (IF "idxok" \in DOMAIN T THEN T.idxok = 1 ELSE TRUE)     \* the input's index is carried (C07)
   /\ IF T.tf = 1
      THEN /\ Len(T.res) = N
           /\ \A r \in 1..N : RowOk(r)
